@@ -432,6 +432,19 @@ func knownSpanIssue(t *m04.Tree, is m04.Issue) string {
 	return ""
 }
 
+func hasEmptyKey(t *m04.Tree) bool {
+	for _, rn := range t.Nodes {
+		if o, ok := rn.Node.(*ast.ObjectLiteral); ok {
+			for _, p := range o.Value {
+				if p.Key == "" {
+					return true
+				}
+			}
+		}
+	}
+	return false
+}
+
 func hasAndNot(t *m04.Tree) bool {
 	for _, rn := range t.Nodes {
 		if a, ok := rn.Node.(*ast.AssignExpression); ok && a.Operator == token.AND_NOT {
@@ -452,6 +465,11 @@ func faithful(v *verdict, prog *ast.Program, tree *m04.Tree, mut []minijs.Token,
 		return
 	}
 	if bal := m04.Balanced(mut); bal != "" {
+		if known("C04-OBJLIT-ANY-TOKEN-KEY") && hasEmptyKey(tree) {
+			// a bracket token taken as property name
+			v.exclude("C04-OBJLIT-ANY-TOKEN-KEY")
+			return
+		}
 		v.fail = fmt.Sprintf("(c) accepted a text whose brackets do not balance: %s; src=%s", bal, show(src))
 		return
 	}
@@ -719,7 +737,7 @@ func checkBytesLocal(c bytesCase) harness.Outcome {
 var bytesFacet = harness.Register(&harness.Facet[bytesCase]{
 	Name: "bytes",
 	Rule: "rapid: one of raw bytes (0-96) | 1-40 fragments of a JS alphabet (keywords, every punctuator, literal pieces, comment openers, escapes, every line terminator and ES5 white space, NUL, invalid / truncated UTF-8, encoded surrogates, sourceMappingURL trailers) | a rendered valid program (random trivia) cut to a random prefix / suffix / infix (also inside a multi-byte character) | the same with 1-3 byte replacements / deletions / insertions | an opener repeated 2..10^4 times (at most 16 KB per repeated piece) + middle + closer repeated d / d-1 / d+1 / 0 times (42 openers: brackets, unary and binary operators, every statement head, function literals, accessors, comments, strings); parser mode 0 or StoreComments; checked: no panic, the process survives (worker subprocess, 20 s watchdog), error => non-empty ErrorList with non-empty messages and positions inside the text (1-based line, 1-based column counted in characters, the unit file.Position documents), accepted => spans and walker as in facet trees; non-trivial = at least 4 non-blank bytes; distinct by JSON of the case",
-	Quick: 5000, Thorough: 30000,
+	Quick: 5000, Thorough: 24000,
 	Gen:   genBytes,
 	Check: remote("bytes", checkBytesLocal),
 })
@@ -828,7 +846,7 @@ func checkMutantLocal(c mutantCase) harness.Outcome {
 var mutantFacet = harness.Register(&harness.Facet[mutantCase]{
 	Name: "token-mutants",
 	Rule: "rapid: minijs.GenProgram (valid ES5, depth<=5; 60% with '/' '/=' and regexp literals replaced so that tokenisation cannot depend on the parse) rendered to tokens with random redundant parentheses / trailing commas, then ONE edit of the token list: delete | insert (98-token vocabulary: every punctuator, keyword, reserved word, literal kind) | duplicate | swap adjacent | swap two arbitrary | none; canonical layout (separators only where the lexical grammar needs them, no line terminator) gets (a) totality, and if accepted (c) tree -> tokens equals the mutant's tokens modulo redundant parentheses, ASI before '}' / end / after do-while, trailing commas of literals, plus balanced brackets, no Bad nodes, minijs.Validate (break/continue/return context, labels, targets, try, accessors, reserved words), regexp flags, and (d) spans (e) walker; a second layout with random trivia and parser mode 0/StoreComments gets (a),(d),(e); non-trivial = the edit changed the token list and the mutant has >= 5 tokens; distinct by JSON of the case",
-	Quick: 8000, Thorough: 90000,
+	Quick: 8000, Thorough: 80000,
 	Gen:   genMutant,
 	Check: remote("token-mutants", checkMutantLocal),
 })
@@ -917,7 +935,7 @@ func pctClass(a, n int) string {
 var sweepFacet = harness.Register(&harness.Facet[sweepCase]{
 	Name: "token-sweep",
 	Rule: "rapid: a valid program (depth<=4, '/'-free, <=160 tokens) with random decoration; then EVERY single-token deletion, duplication and adjacent swap, and 4 insertions (salted choice from the 98-token vocabulary) at every position, each analysed like a token-mutants case in canonical layout (about 7 mutants per token); the case fails with the first failing mutant; non-trivial = the program has >= 5 tokens; distinct by JSON of the case",
-	Quick: 200, Thorough: 2500,
+	Quick: 200, Thorough: 2000,
 	Gen: func(t *rapid.T) sweepCase {
 		return sweepCase{
 			Prog:  m04.Deslash(genPrograms(t, 4)),
@@ -1044,7 +1062,7 @@ func nodeKinds(p *minijs.Node) []string {
 var treeFacet = harness.Register(&harness.Facet[treeCase]{
 	Name: "trees",
 	Rule: "rapid: minijs.GenProgram (full ES5 grammar, depth<=6, unicode identifiers) or, in 1 case of 8, a small template program built around an absent optional child (for(;;), empty case / default, bare break / continue / return, anonymous function, try without catch / finally, empty program, empty block, new without arguments); three layouts (minimal, redundant parentheses, random trivia with ASI); parser mode 0 / StoreComments; every node found by reflection over the ast structs must answer Idx0/Idx1 without panic, with base <= Idx0 <= Idx1 <= base+len, within its parent's span; ast.Walk must enter every node exactly once under its parent, exit in nesting order and never hand over a nil or typed-nil node; non-trivial = the tree has >= 10 nodes and >= 1 absent optional child; distinct by JSON of the case",
-	Quick: 4000, Thorough: 40000,
+	Quick: 4000, Thorough: 36000,
 	Gen: func(t *rapid.T) treeCase {
 		c := treeCase{}
 		if rapid.IntRange(0, 7).Draw(t, "template") == 0 {
